@@ -497,6 +497,9 @@ func (w *Worker) runPath(fn *ssa.Function, it workItem, fuel int64, exp *Explore
 		case "inconclusive":
 			st.Inconclusive++
 			st.InconclMsgs[res.Msg]++
+		case "exit", "deadlock":
+			st.Inconclusive++
+			st.InconclMsgs["path ended by "+res.Kind+" ("+res.Msg+") before the harness finished"]++
 		case "fuel", "depth":
 			st.FuelOut++
 			st.InconclMsgs[res.Kind+": "+res.Msg]++
